@@ -149,7 +149,14 @@ def gen_docs(rng, n: int) -> list:
 
             recs[-1] = _json.loads(_json.dumps(recs[0]))  # an equal-valued document on another thread
         return recs, mode
-    return [gen_doc(rng, force_colour=rng.random() < 0.9) for _ in range(n)], mode
+    from . import corpus
+
+    docs = [gen_doc(rng, force_colour=rng.random() < 0.9) for _ in range(n)]
+    if corpus.FILES:
+        for i in range(n):
+            if rng.random() < 0.35:
+                docs[i] = corpus.recipe_for(rng.choice(corpus.FILES))  # a document the repository's tests build
+    return docs, mode
 
 
 def gen_plan(rng) -> dict:
@@ -1236,6 +1243,9 @@ def main(opts) -> int:
     wall = opts.wall or tier["wall"]
     root = opts.seed
 
+    from . import corpus
+
+    ncorpus = corpus.harvest(os.path.join(opts.root_dir, "corpus"))
     # systematic one-pre-emption sweep
     figdir = tempfile.mkdtemp(prefix="vc15main_")
     rc = RefCache(figdir)
@@ -1270,7 +1280,7 @@ def main(opts) -> int:
     wall_s = time.monotonic() - t0
     if not opts.no_evidence:
         write_evidence(opts, good, len(jobs), len(results), truncated, sjobs, groups, hot_info, tier, n_new, n_known,
-                       wall_s, herrs)
+                       wall_s, herrs, ncorpus)
     sw = [r for r in good if r.get("sweep")]
     print(f"C15 {opts.tier}: {len(good) - len(sw)} seeded schedules + {len(sw)}/{len(sjobs)} sweep schedules, "
           f"{sum(r['steps'] for r in good)} steps, {n_new} new violation(s), {n_known} known, "
@@ -1278,7 +1288,8 @@ def main(opts) -> int:
     return rcode
 
 
-def write_evidence(opts, good, njobs, nres, truncated, sjobs, groups, hot_info, tier, n_new, n_known, wall_s, herrs):
+def write_evidence(opts, good, njobs, nres, truncated, sjobs, groups, hot_info, tier, n_new, n_known, wall_s, herrs,
+                   ncorpus=0):
     from . import boot
 
     sw = [r for r in good if r.get("sweep")]
@@ -1323,6 +1334,7 @@ def write_evidence(opts, good, njobs, nres, truncated, sjobs, groups, hot_info, 
         "shared_state_writers_found_by_profiling": {groups[gi][0]: sorted(info.get("hot", {}))
                                                     for gi, info in sorted(hot_info.items())},
         "doc_modes_seeded": doc_modes,
+        "corpus_documents_harvested_from_repository_tests": ncorpus,
         "exhaustive": False,
         "one_preemption_sweep_complete_for_listed_pairs_at_stride_1_specs": sweep_complete,
         "schedules_per_hour": int(len(good) / wall_s * 3600) if wall_s > 0 else 0,
